@@ -34,7 +34,10 @@ def check(run):
     for m, exp in MUTANTS.items():
         run.mutant("InPlace", f"InPlace_mut_{m}.cfg", expect=exp, timeout=600)
     r = run.tlc("InPlace", "InPlace_emit_quick.cfg" if quick else "InPlace_emit_thorough.cfg", expect_cases=True, timeout=1800)
-    events, _c11 = ie.run(run, r, fault_shapes_per_proc=3 if quick else 24)
+    events, c11 = ie.run(run, r, fault_shapes_per_proc=3 if quick else 24)
+    for pr in c11:
+        if pr.get("gpg"):        # the GPG signing path's completed runs: output must be the canonical, correctly signed envelope with earlier signatures intact
+            run.violation("in-place gpg signing: " + pr["problem"], {"kind": "inplace", "case": pr["case"]})
     rejected = ie.judge(run, events)
     for ev, n, conc in rejected:
         if owns_c18(ev):
